@@ -417,6 +417,7 @@ def check_device_mesh(ctx, cfg, dev, with_model=True):
             ctx.traces += 1
             Lm = em.edge_lengths.mean()
             wlen = wsig = 0.0
+            area_fv = np.zeros(n)
             sign_bad = []
             n_nd = 0
             for (e, i, j, c_, d_), o in zip(meta, out):
@@ -438,6 +439,8 @@ def check_device_mesh(ctx, cfg, dev, with_model=True):
                     pw = float((P[c_] - m_) @ (P[c_] - m_) - (P[i] - m_) @ (P[i] - m_))  # < 0: c encroaches the boundary edge
                     if abs(pw) > 1e-9 * lab * lab and (s_sum >= 0) != (pw > 0):
                         sign_bad.append(dict(edge=int(e), signed_half_face=s_sum * lab, power=pw))
+                area_fv[i] += 0.25 * lab * lab * s_sum
+                area_fv[j] += 0.25 * lab * lab * s_sum
                 wlen = max(wlen, abs(np.sqrt(d2) - em.dual_edge_lengths[e]) / Lm)
                 wsig = max(wsig, abs(s_sum * lab - sd[e]) / Lm)
             ctx.count("dual_edges_through_model", len(meta))
@@ -445,6 +448,12 @@ def check_device_mesh(ctx, cfg, dev, with_model=True):
             ctx.tol("dual edge length (Lean, Float, from site coordinates) vs edge_mesh.dual_edge_lengths (rel to mean edge)", wlen, 1e-8)
             ctx.corr(wlen <= 1e-8, "dual edge length (Lean dualInner2 / dualBoundary2) vs get_dual_edge_lengths", dict(tag, worst=wlen))
             ctx.corr(wsig <= 1e-8, "signed dual face (Lean ccOffset sum) vs the one measured from dual_sites", dict(tag, worst=wsig))
+            # the finite-volume area identity (C07_kite_from_offsets summed over the triangles at a site): cell area = 1/4 * sum over
+            # the edges at the site of |edge|^2 * signed offset sum, against the hull-based areas of the code (locally Delaunay cells)
+            if site_ok.any() and len(meta) == E:
+                rel_fv = float((np.abs(area_fv - mesh.areas) / mesh.areas)[site_ok].max())
+                ctx.tol("cell area = 1/4 sum |e| * signed dual (Lean ccOffset, Float) vs mesh.areas (rel, locally Delaunay cells)", rel_fv, 1e-8)
+                ctx.corr(rel_fv <= 1e-8, "finite-volume area identity (Lean ccOffset sums) vs the hull-based cell areas", dict(tag, worst=rel_fv))
             ctx.corr(not sign_bad, "sign of the signed face vs in-circle / diametral-circle predicate (C07_delaunay_iff, C07_unencroached_iff instances)",
                      dict(tag, first=sign_bad[:1]))
     if len(ctx.samples) < 4:
